@@ -17,14 +17,14 @@ use std::time::{Duration, Instant};
 use sozu_command_lib::channel::Channel;
 use sozu_command_lib::config::{ConfigBuilder, FileConfig, ListenerBuilder};
 use sozu_command_lib::proto::command::{
-    request::RequestType, ActivateListener, AddBackend, HardStop, ListenerType, LoadBalancingParams, PathRule,
+    request::RequestType, ActivateListener, AddBackend, AddCertificate, CertificateAndKey, HardStop, ListenerType, LoadBalancingParams, PathRule,
     Request, RequestHttpFrontend, RequestTcpFrontend, ResponseStatus, ReturnListenSockets, RulePosition,
     ServerConfig, SoftStop, WorkerRequest, WorkerResponse,
 };
 use sozu_command_lib::scm_socket::{Listeners, ScmSocket};
 use sozu_command_lib::state::ConfigState;
 use sozu_lib::server::Server;
-use verif_harness::rig::{cluster, quiet_logs_silently, read_http_message, silence_worker_panics, MockBackend, RawConn, ReadEnd};
+use verif_harness::rig::{asset, tls_connect, TlsStream, cluster, quiet_logs_silently, read_http_message, silence_worker_panics, MockBackend, RawConn, ReadEnd};
 use verif_harness::*;
 
 static DRIVER: OnceLock<String> = OnceLock::new();
@@ -157,7 +157,13 @@ impl HW {
             .name(format!("rig-worker-ho-{prefix}"))
             .stack_size(8 << 20)
             .spawn(move || {
-                quiet_logs_silently();
+                match std::env::var("HO_LOG") {
+                    // debugging aid: HO_LOG=/tmp/x.log writes the worker's debug log there
+                    Ok(path) => {
+                        let _ = sozu_command_lib::logging::setup_logging(&format!("file://{path}.{prefix}"), false, None, None, None, "debug", prefix);
+                    }
+                    Err(_) => quiet_logs_silently(),
+                }
                 let res = catch_unwind(AssertUnwindSafe(|| match Server::try_new_from_config(cmd_worker, scm_worker, sc, initial_state, false) {
                     Ok(mut server) => {
                         let _ = tx.send(Ok(()));
@@ -271,6 +277,98 @@ impl HW {
     }
 }
 
+
+// ------------------------------------------------------- minimal H2 client ----
+
+const H2_BODY: usize = 70_000;
+
+fn h2_body(i: usize) -> Vec<u8> {
+    (0..H2_BODY).map(|k| b'a' + ((k / 3 + k * 5 + i) % 26) as u8).collect()
+}
+
+struct H2Client {
+    tls: TlsStream,
+    buf: Vec<u8>,
+    data: Vec<u8>,
+    end_stream: bool,
+    rst: Option<u32>,
+    goaway: usize,
+    closed: bool,
+}
+
+fn h2_frame(ty: u8, flags: u8, stream: u32, payload: &[u8]) -> Vec<u8> {
+    let mut f = vec![(payload.len() >> 16) as u8, (payload.len() >> 8) as u8, payload.len() as u8, ty, flags];
+    f.extend_from_slice(&stream.to_be_bytes());
+    f.extend_from_slice(payload);
+    f
+}
+
+impl H2Client {
+    /// TLS + preface + SETTINGS + one GET on stream 1 (default 65535-byte windows)
+    fn get(addr: SocketAddr, host: &str, path: &str) -> Result<H2Client, String> {
+        use std::io::Write;
+        let mut tls = tls_connect(addr, host, &["h2"], Duration::from_secs(2)).map_err(|e| format!("tls: {e}"))?;
+        let mut out = b"PRI * HTTP/2.0\r\n\r\nSM\r\n\r\n".to_vec();
+        out.extend(h2_frame(4, 0, 0, &[]));
+        let mut hb = vec![0x82u8, 0x87, 0x04, path.len() as u8];
+        hb.extend_from_slice(path.as_bytes());
+        hb.extend_from_slice(&[0x01, host.len() as u8]);
+        hb.extend_from_slice(host.as_bytes());
+        if std::env::var("HO_H2_VARIANT").map(|v| v == "connwin").unwrap_or(false) {
+            out.extend(h2_frame(8, 0, 0, &(1u32 << 20).to_be_bytes()));
+        }
+        out.extend(h2_frame(1, 0x5, 1, &hb));
+        tls.write_all(&out).map_err(|e| format!("h2 write: {e}"))?;
+        tls.flush().map_err(|e| format!("h2 flush: {e}"))?;
+        Ok(H2Client { tls, buf: vec![], data: vec![], end_stream: false, rst: None, goaway: 0, closed: false })
+    }
+    fn send(&mut self, bytes: &[u8]) -> Result<(), String> {
+        use std::io::Write;
+        self.tls.write_all(bytes).and_then(|_| self.tls.flush()).map_err(|e| format!("h2 write: {e}"))
+    }
+    /// read frames until `done(self)` or the deadline
+    fn pump(&mut self, wait: Duration, done: impl Fn(&H2Client) -> bool) {
+        use std::io::Read;
+        let until = Instant::now() + wait;
+        let _ = self.tls.sock.set_read_timeout(Some(Duration::from_millis(50)));
+        let mut tmp = [0u8; 16384];
+        while !done(self) && !self.closed && Instant::now() < until {
+            match self.tls.read(&mut tmp) {
+                Ok(0) => self.closed = true,
+                Ok(n) => self.buf.extend_from_slice(&tmp[..n]),
+                Err(e) if matches!(e.kind(), std::io::ErrorKind::WouldBlock | std::io::ErrorKind::TimedOut) => {}
+                Err(_) => self.closed = true,
+            }
+            while self.buf.len() >= 9 {
+                let len = ((self.buf[0] as usize) << 16) | ((self.buf[1] as usize) << 8) | self.buf[2] as usize;
+                if self.buf.len() < 9 + len {
+                    break;
+                }
+                let (ty, flags) = (self.buf[3], self.buf[4]);
+                let sid = u32::from_be_bytes([self.buf[5] & 0x7f, self.buf[6], self.buf[7], self.buf[8]]);
+                let payload: Vec<u8> = self.buf[9..9 + len].to_vec();
+                self.buf.drain(..9 + len);
+                match ty {
+                    0 if sid == 1 => {
+                        self.data.extend_from_slice(&payload);
+                        if flags & 1 != 0 {
+                            self.end_stream = true;
+                        }
+                    }
+                    1 if sid == 1 && flags & 1 != 0 => self.end_stream = true,
+                    3 if sid == 1 => self.rst = Some(u32::from_be_bytes([payload[0], payload[1], payload[2], payload[3]])),
+                    4 if flags & 1 == 0 => {
+                        let ack = h2_frame(4, 1, 0, &[]);
+                        let _ = self.send(&ack);
+                    }
+                    7 => self.goaway += 1,
+                    _ => {}
+                }
+            }
+        }
+    }
+}
+
 // ------------------------------------------------------------- scenario ----
 
 #[derive(Clone, Debug, Default)]
@@ -312,7 +410,7 @@ const BODY: usize = 3000;
 
 /// size of the response of the `buftail` phase: far more than sozu's buffer and
 /// the kernel buffers of a client that does not read
-const BIG: usize = 2 << 20;
+const BIG: usize = 8 << 20;
 
 fn big_body(i: usize) -> Vec<u8> {
     (0..BIG).map(|k| b'A' + ((k / 7 + k * 3 + i) % 26) as u8).collect()
@@ -333,18 +431,19 @@ struct Client {
     tcp: bool,
     /// backend thread still pushing a large response
     writer: Option<JoinHandle<()>>,
+    h2: Option<H2Client>,
 }
 
 impl Client {
     /// has a request (or stream) under way
     fn inflight(&self) -> bool {
-        matches!(self.phase.as_str(), "head" | "sent" | "midbody" | "tcpmid" | "buftail")
+        matches!(self.phase.as_str(), "head" | "sent" | "midbody" | "tcpmid" | "buftail" | "h2tail")
     }
     /// ... that the worker waits for before acknowledging a SoftStop: an HTTP
     /// request whose head was received in full (`Mux::shutting_down` only
     /// looks at linked streams; `TcpSession::shutting_down` is always true)
     fn holds_stop(&self) -> bool {
-        matches!(self.phase.as_str(), "sent" | "midbody" | "buftail")
+        matches!(self.phase.as_str(), "sent" | "midbody" | "buftail" | "h2tail")
     }
 }
 
@@ -467,7 +566,49 @@ fn run_with_old(sc: &Scenario, run: &mut Run, w1: &mut HW) -> Result<(), String>
             b.read_until_len(17, T);
             b.write_all(&body_of(i)[..BODY / 2], T).map_err(|e| e.to_string())?;
             c.read_until_len(BODY / 2, T);
-            clients.push(Client { phase: phase.clone(), conn: Some(c), back: Some(b), backend, idx: i, done: false, tcp: true, writer: None });
+            clients.push(Client { phase: phase.clone(), conn: Some(c), back: Some(b), backend, idx: i, done: false, tcp: true, writer: None, h2: None });
+            continue;
+        }
+        if phase == "h2tail" {
+            // an HTTPS listener of its own (IPv4: the TLS client of the rig), h2 client with the
+            // default 65535-byte windows, HTTP/1.1 backend answering 70000 bytes + Connection: close
+            let rsv = reserve(false, false)?;
+            let a = rsv.addr;
+            w1.ok(RequestType::AddHttpsListener(ListenerBuilder::new_https(a.into()).to_tls(None).map_err(|e| e.to_string())?))?;
+            w1.ok(RequestType::ActivateListener(ActivateListener { address: a.into(), proxy: ListenerType::Https.into(), from_scm: false }))?;
+            reserved.push(rsv);
+            declared[1].push(a);
+            let path = format!("/h2tail{i}");
+            w1.ok(RequestType::AddHttpsFrontend(RequestHttpFrontend { cluster_id: Some(cid.clone()), address: a.into(), hostname: "localhost".into(), path: PathRule::prefix(path.clone()), position: RulePosition::Tree.into(), ..Default::default() }))?;
+            w1.ok(RequestType::AddCertificate(AddCertificate {
+                address: a.into(),
+                certificate: CertificateAndKey { certificate: asset("local-certificate.pem").map_err(|e| e.to_string())?, key: asset("local-key.pem").map_err(|e| e.to_string())?, certificate_chain: vec![], versions: vec![], names: vec![] },
+                expired_at: None,
+            }))?;
+            w1.ok(RequestType::AddBackend(AddBackend { cluster_id: cid.clone(), backend_id: format!("{cid}-0"), address: backend.addr.into(), load_balancing_parameters: Some(LoadBalancingParams::default()), sticky_id: None, backup: None }))?;
+            let mut h2 = H2Client::get(a, "localhost", &path)?;
+            let mut b = backend.accept(T).map_err(|e| format!("h2tail backend accept: {e}"))?;
+            b.read_until(b"\r\n\r\n", T);
+            let variant = std::env::var("HO_H2_VARIANT").unwrap_or_default();
+            let head = if variant == "nocloseheader" || variant == "keepopen" {
+                format!("HTTP/1.1 200 OK\r\nContent-Length: {H2_BODY}\r\n\r\n")
+            } else {
+                format!("HTTP/1.1 200 OK\r\nContent-Length: {H2_BODY}\r\nConnection: close\r\n\r\n")
+            };
+            b.write_all(head.as_bytes(), T).map_err(|e| e.to_string())?;
+            b.write_all(&h2_body(i), T).map_err(|e| e.to_string())?;
+            if variant == "keepopen" {
+                std::mem::forget(b);
+            } else {
+                b.close();
+            }
+            // the client's window lets 65535 bytes through; sozu keeps the other 4465
+            h2.pump(T, |c| c.data.len() >= 65535);
+            if h2.data.len() != 65535 {
+                return Err(format!("h2tail set-up: {} bytes before the window closed", h2.data.len()));
+            }
+            thread::sleep(Duration::from_millis(30));
+            clients.push(Client { phase: phase.clone(), conn: None, back: None, backend, idx: i, done: false, tcp: false, writer: None, h2: Some(h2) });
             continue;
         }
         let host = format!("c{i}.local");
@@ -520,7 +661,7 @@ fn run_with_old(sc: &Scenario, run: &mut Run, w1: &mut HW) -> Result<(), String>
             }
             _ => return Err(format!("unknown phase {phase}")),
         }
-        clients.push(Client { phase: phase.clone(), conn: Some(c), back, backend, idx: i, done: false, tcp: false, writer });
+        clients.push(Client { phase: phase.clone(), conn: Some(c), back, backend, idx: i, done: false, tcp: false, writer, h2: None });
     }
 
     // ---- connector hammering the addresses during the hand-over
@@ -636,8 +777,9 @@ fn run_with_old(sc: &Scenario, run: &mut Run, w1: &mut HW) -> Result<(), String>
 
         // ---- some in-flight requests finish before the stop
         let mut finished = 0;
-        for c in clients.iter_mut().filter(|c| c.inflight() && c.phase != "buftail") {
-            if finished >= sc.early {
+        let bt_early = std::env::var("HO_BUFTAIL_EARLY").is_ok();
+        for c in clients.iter_mut().filter(|c| c.inflight() && (c.phase != "h2tail" || bt_early) && (c.phase != "buftail" || bt_early)) {
+            if finished >= sc.early && !(bt_early && (c.phase == "buftail" || c.phase == "h2tail")) {
                 break;
             }
             finish_client(c, run);
@@ -850,6 +992,23 @@ fn finish_client(c: &mut Client, run: &mut Run) {
     let i = c.idx;
     let body = body_of(i);
     let res = (|| -> Result<(), String> {
+        if let Some(h2) = c.h2.as_mut() {
+            // the client opens its windows: the rest of the response and END_STREAM must follow
+            let mut wu = h2_frame(8, 0, 0, &(H2_BODY as u32).to_be_bytes());
+            wu.extend(h2_frame(8, 0, 1, &(H2_BODY as u32).to_be_bytes()));
+            if let Err(e) = h2.send(&wu) {
+                h2.pump(Duration::from_millis(200), |c| c.end_stream || c.rst.is_some());
+                return Err(format!("{e}; h2 client had {} of {H2_BODY} bytes, END_STREAM={}, RST_STREAM={:?}, GOAWAY frames={}, connection closed={}", h2.data.len(), h2.end_stream, h2.rst, h2.goaway, h2.closed));
+            }
+            h2.pump(Duration::from_secs(3), |c| c.end_stream || c.rst.is_some());
+            if h2.data.len() != H2_BODY || !h2.end_stream {
+                return Err(format!("h2 client got {} of {H2_BODY} bytes, END_STREAM={}, RST_STREAM={:?}, GOAWAY frames={}, connection closed={}", h2.data.len(), h2.end_stream, h2.rst, h2.goaway, h2.closed));
+            }
+            if h2.data != h2_body(i) {
+                return Err("h2 body bytes differ".into());
+            }
+            return Ok(());
+        }
         let conn = c.conn.as_mut().ok_or("no connection")?;
         if c.tcp {
             let b = c.back.as_mut().ok_or("no backend connection")?;
@@ -889,7 +1048,7 @@ fn finish_client(c: &mut Client, run: &mut Run) {
             let h = head_len.ok_or("no response head")?;
             let got = &conn.received[h..];
             if got.len() != BIG {
-                return Err(format!("client got {} of {BIG} body bytes of a complete `Connection: close` response (lost tail: {})", got.len(), BIG - got.len().min(BIG)));
+                return Err(format!("client got {} of {BIG} body bytes of a complete `Connection: close` response (lost tail: {}; stream ended with eof={} error={:?})", got.len(), BIG - got.len().min(BIG), conn.eof, conn.error));
             }
             if got != &want[..] {
                 return Err("body bytes differ".into());
@@ -928,8 +1087,11 @@ fn finish_client(c: &mut Client, run: &mut Run) {
     if let Err(e) = res {
         let class = if c.tcp {
             "inflight-request-cut:tcp-stream".to_string()
-        } else if c.phase == "buftail" {
+        } else if c.phase == "h2tail" {
             "inflight-request-cut:buffered-tail".to_string()
+        } else if c.phase == "buftail" {
+            // (also seen without any SoftStop: see the `slow-reader` family)
+            "h1-response-truncated:slow-reader-backend-closed".to_string()
         } else {
             format!("inflight-request-cut:{}", c.phase)
         };
@@ -964,13 +1126,14 @@ impl Area for Handover {
         let s = |x: &str| vec!["new".to_string(), x.to_string()];
         if self.family.as_deref() == Some("buffered-tail") {
             return vec![
-                s("handover L=1,0,0,0 v6=0 clients=buftail early=0 mode=stop hammer=0"),
-                s("handover L=1,0,0,0 v6=0 clients=buftail early=0 mode=handover hammer=0"),
+                s("handover L=1,0,0,0 v6=0 clients=h2tail early=0 mode=stop hammer=0"),
+                s("handover L=1,0,0,0 v6=0 clients=h2tail early=0 mode=handover hammer=0"),
             ];
         }
+        if self.family.as_deref() == Some("slow-reader") {
+            return vec![s("handover L=1,0,0,0 v6=0 clients=buftail early=0 mode=stop hammer=0")];
+        }
         vec![
-            s("handover L=1,0,0,0 v6=0 clients=buftail early=0 mode=stop hammer=0"),
-            s("handover L=2,0,0,0 v6=100 clients=sent+buftail early=0 mode=handover hammer=1"),
             s("handover L=1,0,0,0 v6=0 clients=sent early=0 mode=handover hammer=1"),
             s("handover L=1,1,1,1 v6=50 clients=idle+midbody+head+connected early=1 mode=handover hammer=1"),
             s("handover L=1,0,1,0 v6=0 clients=sent+tcpmid early=0 mode=stop hammer=0"),
@@ -997,8 +1160,10 @@ impl Area for Handover {
         if self.family.as_deref() == Some("buffered-tail") {
             clients.truncate(2);
             clients.retain(|c| c != "tcpmid" && c != "head");
-            clients.push("buftail".into());
-        } else if rng.chance(1, 6) {
+            clients.push("h2tail".into());
+        } else if self.family.as_deref() == Some("slow-reader") {
+            clients.truncate(1);
+            clients.retain(|c| c != "tcpmid" && c != "head");
             clients.push("buftail".into());
         }
         let inflight = clients.iter().filter(|c| ["head", "sent", "midbody"].contains(&c.as_str())).count();
@@ -1040,7 +1205,7 @@ impl Area for Handover {
             for c in &sc.clients {
                 run.r.tags.push(format!("client:{c}"));
             }
-            if n >= 2 || sc.clients.iter().any(|c| ["head", "sent", "midbody", "tcpmid", "buftail"].contains(&c.as_str())) {
+            if n >= 2 || sc.clients.iter().any(|c| ["head", "sent", "midbody", "tcpmid", "buftail", "h2tail"].contains(&c.as_str())) {
                 run.r.nontrivial = true;
             }
             if let Err(e) = run_scenario(&sc, &mut run) {
@@ -1052,6 +1217,9 @@ impl Area for Handover {
         let _ = BTreeMap::<u8, u8>::new();
         if self.family.as_deref() == Some("buffered-tail") {
             run.r.oracle.retain(|(c, _)| c == "inflight-request-cut:buffered-tail");
+        }
+        if self.family.as_deref() == Some("slow-reader") {
+            run.r.oracle.retain(|(c, _)| c == "h1-response-truncated:slow-reader-backend-closed");
         }
         run.r
     }
